@@ -13,6 +13,7 @@ pub struct HtlcInfo {
 
 #[derive(Clone, Debug)]
 pub struct CommitmentInfo {
+	pub txid: [u8; 32],
 	pub commitment_number: u64,
 	pub feerate_per_kw: u32,
 	pub to_broadcaster_value_sat: u64,
@@ -42,7 +43,9 @@ fn htlc(h: &HTLCOutputInCommitment) -> HtlcInfo {
 }
 
 fn commitment(c: &CommitmentTransaction) -> CommitmentInfo {
+	use bitcoin::hashes::Hash;
 	CommitmentInfo {
+		txid: c.trust().txid().to_byte_array(),
 		commitment_number: c.commitment_number(),
 		feerate_per_kw: c.negotiated_feerate_per_kw(),
 		to_broadcaster_value_sat: c.to_broadcaster_value_sat(),
@@ -81,6 +84,7 @@ pub fn steps(update: &ChannelMonitorUpdate) -> Vec<StepView> {
 				claimed: claimed_htlcs.len(),
 			},
 			ChannelMonitorUpdateStep::LatestCounterpartyCommitmentTXInfo {
+				commitment_txid,
 				htlc_outputs,
 				commitment_number,
 				feerate_per_kw,
@@ -89,6 +93,10 @@ pub fn steps(update: &ChannelMonitorUpdate) -> Vec<StepView> {
 				..
 			} => StepView::CounterpartyCommitment {
 				commitments: vec![CommitmentInfo {
+					txid: {
+						use bitcoin::hashes::Hash;
+						commitment_txid.to_byte_array()
+					},
 					commitment_number: *commitment_number,
 					feerate_per_kw: feerate_per_kw.unwrap_or(0),
 					to_broadcaster_value_sat: to_broadcaster_value_sat.unwrap_or(0),
